@@ -295,6 +295,7 @@ func (svr *StrictServerImpl) getLocalTrust(
 		result openapi.InlineTrustMatrix
 		err    error
 	)
+	result.Scheme = openapi.InlineTrustMatrixSchemeInline
 	err = tm.LockAndRun(func(c *sparse.Matrix, timestamp *big.Int) error {
 		result.Size, err = c.Dim()
 		if err != nil {
